@@ -404,3 +404,46 @@ Proof.
   exists {| x_side := 0; x_star := true; x_type := Ratio; x_pos := Some 2; x_neutral := Some 0; x_pct := Some (3 # 2); x_deg := None |}, 0%nat, (3 # 2).
   repeat split; try reflexivity; try discriminate.
 Qed.
+
+(* ---------------------------------------------------------------- T: T-model row -> stamps -> flows (end to end)
+   step 1: for a row with symmetric series impedance the flows are those of the pi circuit (currents pi_circuit_I)
+   behind the ideal transformer n = TAP e^{j SHIFT}: S_f = S_N v_f' conj(I_f'), S_t = S_N v_t conj(I_t), v_f' = v_f/n *)
+Lemma flows_pi_circuit : forall br e vf vt sn,
+  b_stat br = true -> b_ra br == 0 -> b_xa br == 0 ->
+  ~ (b_r br) * (b_r br) + (b_x br) * (b_x br) == 0 -> ~ b_tap br == 0 -> re e * re e + im e * im e == 1 ->
+  let vf' := Cdiv vf (Cscale (b_tap br) e) in
+  let i := pi_circuit_I (b_r br) (b_x br) (b_g br) (b_b br) (b_ga br) (b_ba br) vf' vt in
+  Ceq2 (flows (stamps_core br e) vf vt sn)
+       (Cscale sn (Cmul vf' (Cconj (fst i))), Cscale sn (Cmul vt (Cconj (snd i)))).
+Proof.
+  brow_intro. intros [er ei] [vfr vfi] [vtr vti] sn. cbn [re im].
+  intros Hs Hra Hxa Hz Ht He. subst stat.
+  unfold Ceq2, flows, stamps_core, pi_circuit_I. brow_cbn. rewrite (qeqb_false _ _ Ht).
+  pose proof (tap_unit_nz tap er ei Ht He) as Hn.
+  split; cstrip; rewrite ?Hra, ?Hxa; field; repeat split; try assumption;
+    try (apply norm_sq_nz; assumption); try (apply norm_conj_nz; assumption);
+    intro K; apply Hz; rewrite <- K; ring.
+Qed.
+
+(* step 2: when the row carries the pi parameters _wye_delta computed from (r, x, g, b, rr, xr), these currents are the
+   currents of the documented T circuit (za hv-side leakage, zb lv-side leakage, magnetising branch at the star point) *)
+Lemma t_model_row_flows : forall br e vf vt sn r x g b rr xr,
+  b_stat br = true -> b_ra br == 0 -> b_xa br == 0 ->
+  ~ (b_r br) * (b_r br) + (b_x br) * (b_x br) == 0 -> ~ b_tap br == 0 -> re e * re e + im e * im e == 1 ->
+  (b_r br, b_x br, b_g br, b_b br, b_ga br, b_ba br) = wye_delta_core r x g b rr xr ->
+  let za := wd_za r x rr xr in let zb := wd_zb r x rr xr in let yc := mkC g b in
+  ~ za ==c C0 -> ~ zb ==c C0 -> ~ yc ==c C0 -> ~ Cadd (Cadd za zb) (Cmul (Cmul za zb) yc) ==c C0 ->
+  let vf' := Cdiv vf (Cscale (b_tap br) e) in
+  let i := t_circuit_I za zb yc vf' vt in
+  Ceq2 (flows (stamps_core br e) vf vt sn)
+       (Cscale sn (Cmul vf' (Cconj (fst i))), Cscale sn (Cmul vt (Cconj (snd i)))).
+Proof.
+  intros br e vf vt sn r x g b rr xr Hs Hra Hxa Hz Ht He Hrow za zb yc Ha Hb Hc Hd vf' i.
+  pose proof (flows_pi_circuit br e vf vt sn Hs Hra Hxa Hz Ht He) as F. cbn zeta in F. fold vf' in F.
+  pose proof (wye_delta_two_port r x g b rr xr vf' vt Ha Hb Hc Hd) as W.
+  rewrite <- Hrow in W. fold za zb yc in W. fold i in W.
+  destruct F as [F1 F2]. destruct W as [W1 W2]. cbn [fst snd] in *.
+  split; cbn [fst snd].
+  - rewrite F1, W1. reflexivity.
+  - rewrite F2, W2. reflexivity.
+Qed.
